@@ -150,6 +150,7 @@ func (t *fnTrans) call(ins ssa.Instruction, c *ssa.CallCommon, res ssa.Value) {
 		if key != name && key != t.eng.shortName(name) {
 			continue
 		}
+		t.atcallHit[key] = true
 		cenv := t.specEnv(t.st, t.entry)
 		for _, li := range t.loops {
 			if li.body[t.cur] && li.headVars != nil {
@@ -246,6 +247,7 @@ func (t *fnTrans) call(ins ssa.Instruction, c *ssa.CallCommon, res ssa.Value) {
 		if key != name && key != t.eng.shortName(name) {
 			continue
 		}
+		t.atcallHit[key] = true
 		aenv := t.specEnv(t.st, oldSt)
 		for _, li := range t.loops {
 			if li.body[t.cur] && li.headVars != nil {
